@@ -54,7 +54,7 @@ func (f *Frame) callMods(in ssa.CallInstruction) ([]string, bool) {
 		}
 		return h.mods(f, cc), false
 	}
-	if con := f.c.eng.contractFor(callee); con != nil {
+	if con := f.c.eng.contractFor(callee); con != nil && !(con.Inline && f.c.eng.canInlineForce(callee)) {
 		return f.contractModKeys(con, callee)
 	}
 	if pureExternal(name) {
@@ -74,6 +74,9 @@ func (f *Frame) callMods(in ssa.CallInstruction) ([]string, bool) {
 			for _, in2 := range b.Instrs {
 				switch y := in2.(type) {
 				case *ssa.Store:
+					if al, ok := storeRoot(y.Addr).(*ssa.Alloc); ok && !escapes(al) {
+						continue // callee-local temporary
+					}
 					for _, k := range sub.staticHeapKeys(y.Addr) {
 						mod[k] = true
 					}
@@ -281,6 +284,17 @@ func escapes(a ssa.Value) bool {
 				if b, ok := x.Call.Value.(*ssa.Builtin); ok {
 					switch b.Name() {
 					case "len", "cap", "copy":
+						continue
+					}
+				}
+				if callee := x.Call.StaticCallee(); callee != nil && !x.Call.IsInvoke() {
+					leaks := false
+					for i, a := range x.Call.Args {
+						if a == v && paramLeaks(callee, i, 0) {
+							leaks = true
+						}
+					}
+					if !leaks {
 						continue
 					}
 				}
@@ -581,6 +595,34 @@ func (f *Frame) inlineCall(cur *blockCur, in ssa.Instruction, callee *ssa.Functi
 	c.inlineSeq++
 	seq := c.inlineSeq
 	sub.prefixOverride = fmt.Sprintf("i%d_%s_", seq, quoteSymInner(callee.Name()))
+	if con := c.eng.contractFor(callee); con != nil && len(con.Safety) > 0 && in != nil {
+		sub.suppress = true
+		for _, a := range args {
+			f.checkTypeInv(cur, a, in, "argument of "+con.Func)
+		}
+	}
+	if con := c.eng.contractFor(callee); con != nil && len(con.Requires) > 0 && in != nil {
+		env := &SpecEnv{c: c, st: cur.st, old: cur.st, names: map[string]Val{}}
+		if callee.Pkg != nil {
+			env.pkg = callee.Pkg.Pkg
+		}
+		for i, p := range callee.Params {
+			if i < len(args) {
+				v := args[i]
+				v.T = p.Type()
+				env.names[p.Name()] = v
+			}
+		}
+		for _, cl := range con.Requires {
+			t, err := env.evalBool(cl.Expr)
+			if err != nil {
+				f.unsupported("requires of %s: %v", con.Func, err)
+			}
+			f.c.addObligation(&Obligation{Name: f.oblName("pre", con.Func+"/"+clauseLabel(cl)), Class: "requires", Props: f.allProps(), Guard: cur.reach, Goal: t,
+				Pos: c.eng.posString(in.Pos()), Src: cl.Text})
+			cur.assume(t)
+		}
+	}
 	for i, p := range callee.Params {
 		if i >= len(args) {
 			return Val{}, false
